@@ -83,6 +83,12 @@ func registerVerifModels(e *Engine) {
 	own("verifRotateMap", func(fr *frame, fn *ssa.Function, args []value) value {
 		if m, ok := args[0].(iface).v.(*omap); ok && m != nil {
 			m.rotate = true
+			if names, _ := args[1].([]value); len(names) > 0 {
+				m.rotateIn = map[string]bool{}
+				for _, n := range names {
+					m.rotateIn[fr.concreteString(n)] = true
+				}
+			}
 		}
 		return nil
 	})
